@@ -176,7 +176,9 @@ func (g *gen) genStatement(typ types.Type, this string) error {
 		strct, isStruct := reftyp.Underlying().(*types.Struct)
 		if !isStruct {
 			g.W("%s := new(%s)", this, g.TypeString(reftyp))
-			g.genField(reftyp, thisref)
+			if err := g.genField(reftyp, thisref); err != nil {
+				return err
+			}
 			g.W("return %s", this)
 		} else {
 			gotypeStr := g.TypeString(reftyp)
